@@ -121,7 +121,7 @@ def run_case(case) -> core.Outcome:
         out.classes.append(f"raised:{type(exc).__name__}")
         return out
     where = "pinned" if gen == "pinned" else shape
-    if not convgen.range_ok(c.sizes, mag, src, dst):
+    if not convgen.range_ok(c.sizes, mag, src, dst) or not convgen.partials_ok(c.sizes, mag, src, dst):
         out.inconclusive = "float-range"
         return out
     if got.unit is not dst:
@@ -142,7 +142,10 @@ def run_case(case) -> core.Outcome:
         bad = gotf != 0
         rel = float("inf") if bad else 0.0
     else:
-        rel = abs(float(gotf / want) - 1) if gotf is not None else float("inf")
+        try:
+            rel = abs(float(gotf / want) - 1) if gotf is not None else float("inf")
+        except OverflowError:
+            rel = float("inf")
         bad = rel > tol
     if bad:
         out.fail(
